@@ -504,6 +504,8 @@ static void runLoops(const std::string& line)
 		Elem ext = mk(5); const Elem& item = (ii < a.GetCount()) ? a[ii] : ext; internal::ArrayShifter<A>::InsertNogrow(a, i, c, item); });
 	else if (fn == "ainsert") guardChild<A, false, std::function<void(A&)>, true>(n, cap, [=] (A& a) {      // the real Array::Insert, item aliased or external
 		Elem ext = mk(5); const Elem& item = (ii < a.GetCount()) ? a[ii] : ext; a.Insert(i, c, item); });
+	else if (fn == "aaddback") guardChild<A, false, std::function<void(A&)>, true>(n, cap, [=] (A& a) {     // the real Array::AddBack(const Item&)
+		Elem ext = mk(5); const Elem& item = (ii < a.GetCount()) ? a[ii] : ext; a.AddBack(item); });
 	else std::puts("unsupported-loop");
 }
 static void runGuard(const std::string& line)
